@@ -1109,10 +1109,46 @@ func Run(j *job.Job, s *job.Sink) {
 					imported["openconfig-extensions"] = true
 				}
 			}
+			// Three sets in ten do not get their one Process run on a freshly loaded set: the
+			// set is processed twice (with or without the caller dropping the entry cache
+			// in between), or a first run happens when only some of the files are loaded
+			// (it may well fail). What is judged is the last run, which must give what a
+			// single run on the complete set gives.
+			mode := "single"
+			if !fromDisk {
+				mode = []string{"single", "single", "single", "single", "single", "single", "single", "twice", "twice-cache-cleared", "staged"}[rng.Intn(10)]
+			}
+			s.Count("process_mode:"+mode, 1)
+			staged := map[string]bool{}
+			func() {
+				defer func() { recover() }() // a crash here shows again below, where it is reported
+				switch mode {
+				case "twice", "twice-cache-cleared":
+					for _, f := range cs.Files {
+						if ms.Parse(f.Text, f.Name) == nil {
+							staged[f.Name] = true
+						}
+					}
+					ms.Process()
+					if mode == "twice-cache-cleared" {
+						ms.ClearEntryCache()
+					}
+				case "staged":
+					n := 1 + rng.Intn(len(cs.Files))
+					for _, i := range rng.Perm(len(cs.Files))[:n] {
+						if ms.Parse(cs.Files[i].Text, cs.Files[i].Name) == nil {
+							staged[cs.Files[i].Name] = true
+						}
+					}
+					ms.Process()
+				}
+			}()
 			evs := hooklog.Collect(func() {
 				for _, f := range cs.Files {
 					var err error
 					switch {
+					case staged[f.Name]:
+						continue // loaded before the first run
 					case !fromDisk:
 						err = ms.Parse(f.Text, f.Name)
 					case imported[strings.TrimSuffix(f.Name, ".yang")]:
